@@ -26,7 +26,7 @@ class Ops(SeriesOps):
         "to_dict", "itertuples", "iterrows", "items", "head", "tail", "sample", "sum", "min", "max", "insert", "to_csv",
         "sort_index", "get", "pipe", "equals", "nunique", "count", "mean", "any", "all", "isna", "isnull", "notna", "info",
         "applymap", "map", "explode", "pivot_table", "to_json", "set_axis", "squeeze", "transpose", "add_prefix", "add_suffix",
-        "nlargest", "nsmallest", "cumsum", "abs", "shift", "duplicated", "agg", "aggregate", "update", "append", "to_records", "to_string", "clip", "where", "eval",
+        "nlargest", "nsmallest", "cumsum", "abs", "shift", "duplicated", "agg", "aggregate", "update", "append", "to_records", "to_string", "clip", "where", "eval", "filter",
     }
     GB_METHODS = {"agg", "aggregate", "sum", "max", "min", "mean", "count", "size", "first", "last", "describe", "groups", "cumsum",
                   "shift", "apply", "transform", "std", "median", "nunique", "head", "tail", "cummax", "idxmax", "idxmin", "ngroup", "cumcount"}
@@ -509,6 +509,15 @@ class Ops(SeriesOps):
         v = pos[2] if len(pos) > 2 else kw.get("value")
         self.set_column(f, name, v, node)
         return None
+
+    def f_filter(self, f, pos, kw, node):
+        """DataFrame.filter(items=[...]) keeps the listed columns that exist, in the listed order (like / regex forms are not modelled)"""
+        items = kw.get("items", pos[0] if pos else None)
+        if isinstance(items, list) and all(isinstance(c, str) for c in items) and kw.get("axis") in (None, 1, "columns") and not (set(kw) - {"items", "axis"}):
+            present = [c for c in items if f.has(c) is not False]
+            if all(f.has(c) is True for c in present):
+                return self.project(f, present, node)
+        raise AnalysisError("DataFrame.filter(...): only items=[known columns] is modelled")
 
     def f_get(self, f, pos, kw, node):
         if pos and isinstance(pos[0], str):
